@@ -4,8 +4,9 @@ pub mod def;
 pub mod explore;
 pub mod fam;
 pub mod run;
+pub mod shape;
 pub mod sup;
 
 pub fn all_checks() -> Vec<&'static dyn sup::Check> {
-    vec![&checks::c01::C01]
+    vec![&checks::c01::C01, &checks::c02::C02, &checks::c03::C03, &checks::c05::C05, &checks::c07::C07, &checks::c19::C19]
 }
